@@ -224,10 +224,39 @@ class Fock(BaseState):
             to = self.trace_out()
             assert isinstance(to, jnp.ndarray)
             if to.shape == (self.dimensions, 1):
-                return int(num_quanta_vector(to))
+                # A traced out vector is a sum of amplitudes, which can cancel;
+                # the occupied levels have to be read from the populations
+                return int(num_quanta_vector(self._populations()))
             elif to.shape == (self.dimensions, self.dimensions):
                 return int(num_quanta_matrix(to))
         return -1
+
+    def _populations(self) -> jnp.ndarray:
+        """
+        Population of each number state, when the state vector is stored
+        in the envelope or in the composite envelope product state
+
+        Returns:
+        --------
+        jnp.ndarray
+            Column vector of populations
+        """
+        if isinstance(self.index, int):
+            assert self.envelope is not None
+            assert isinstance(self.envelope.state, jnp.ndarray)
+            shape = [2, 2]
+            shape[self.index] = self.dimensions
+            amplitudes = self.envelope.state.reshape(shape)
+            axis = self.index
+        else:
+            assert isinstance(self.index, tuple)
+            assert isinstance(self.composite_envelope, CompositeEnvelope)
+            product_state = self.composite_envelope.states[self.index[0]]
+            shape = [so.dimensions for so in product_state.state_objs]
+            amplitudes = product_state.state.reshape(shape)
+            axis = self.index[1]
+        amplitudes = jnp.moveaxis(amplitudes, axis, 0).reshape((self.dimensions, -1))
+        return jnp.sum(jnp.abs(amplitudes) ** 2, axis=1).reshape((-1, 1))
 
     def set_index(self, minor: int, major: int = -1) -> None:
         """
